@@ -194,6 +194,8 @@ def root_exprs(quick):
                                                               opbuild.gen(rng, "Toeplitz", m=n, psd=True)]})
     add("ConstantMul(Dense)", lambda: {"cls": "ConstantMul", "base": opbuild.gen(rng, "Dense", m=n, psd=True),
                                        "c": opbuild.T([], [2])})
+    add("Kron(Dense,Dense)", lambda: {"cls": "Kron", "ops": [opbuild.gen(rng, "Dense", m=2, psd=True),
+                                                              opbuild.gen(rng, "Dense", m=2, psd=True)]})
     add("Dense5", lambda: opbuild.gen(rng, "Dense", m=5, psd=True))
     add("Dense1", lambda: opbuild.gen(rng, "Dense", m=1, psd=True))
     add("Dense[2]x3", lambda: opbuild.gen(rng, "Dense", batch=[2], m=3, psd=True))
@@ -339,7 +341,9 @@ def run_history(expr, events, want_fresh=True):
                 stp.update(raised=w.seed_symeig(ev[1]), transparent=True, why="")
             elif kind == "clear":
                 w.clear(ev[1])
-                stp.update(raised=False, transparent=True, why="")
+                left = len(getattr(w.objs[ev[1]], "_memoize_cache", None) or {})
+                stp.update(raised=False, transparent=(left == 0),
+                           why="" if left == 0 else "clear_cache_hook left %d entries in the cache" % left)
             else:
                 raise ValueError(ev)
             w.note_precond_state(cur)
@@ -522,6 +526,8 @@ def nlist(xs):
 def pf_lit(p):
     td = "(Some %s)" % cstr(p["td_name"]) if p["td_name"] else "None"
     eig = "(EigShift %d)" % p["eig"] if p["eig"] is not None else "EigBase"
+    if p.get("kron") is not None:
+        eig = "(EigKron %s)" % nlist(p["kron"])
     cm = "(Some %d)" % p["cm_root"] if p["cm_root"] is not None else "None"
     return "(pf %s %s %s %s %s %s %s %s)" % (td, nlist(p["td_kids"]), common.coq_bool(p["chol_ignore"]), eig, cm,
                                              common.coq_bool(p["precond"]), common.coq_bool(p["sum"]),
@@ -605,7 +611,7 @@ def expect_lit(stp, I):
 def case_lit(rec, I=None):
     """Coq literal of one executed history (None when it left the modelled universe)"""
     I = I or Interner()
-    if rec["opaque"] or any(p.get("opaque") for p in rec["init"]):
+    if any(p.get("opaque") for p in rec["init"]):
         return None
     sym = [0]
 
@@ -636,7 +642,7 @@ def case_lit(rec, I=None):
                 break
             ps = stp["profiles"]
             if any(p.get("opaque") for p in ps):
-                return None
+                break       # the derivation produced an object of a class outside the transcription: the comparable part ends
             kids = [mk("mkn", p) for p in ps[:-1]]
             res = mk("mkn", ps[-1])
             profs.extend(ps)
@@ -1010,7 +1016,7 @@ def run(ctx):
         if ps:
             stats["histories_with_problem"] += 1
             stats["direct_problems"] += len(ps)
-        if label in exact_labels and not rec["opaque"] and not any(p_.get("opaque") for p_ in rec["init"]):
+        if label in exact_labels and not any(p_.get("opaque") for p_ in rec["init"]):
             cand.append(idx)
         else:
             stats["outside_model"] += 1
